@@ -18,7 +18,7 @@ def name_of(cfg):
             f"{k.get('update_factors_in_hook', True)}/scale="
             f"{cfg.get('scale')}/fdt={k.get('factor_dtype')}/"
             f"{k.get('compute_method', 'eigen')}/hist="
-            f"{''.join('R' if o[0] == 'train_reset' else o[0][0] for o in cfg['history'])}")
+            f"{''.join({'train_reset': 'R', 'keep': 'K', 'rollback': 'B'}.get(o[0], o[0][0]) for o in cfg['history'])}")
 
 
 def check_records(part, cfg, rec, ref, who=''):
@@ -101,6 +101,10 @@ def histories():
     # micro-batch): the discarded statistics must not count
     out.append([['train'], ['train_reset', 1], ['train'], ['train_reset', 1],
                 ['train']])
+    # a state kept in memory (uncopied) while the factors are updated, then
+    # loaded back: "previous" must be the kept factor
+    out.insert(3, [['train'], ['keep'], ['train'], ['train'], ['rollback'],
+                   ['train'], ['train']])
     return out
 
 
@@ -127,6 +131,9 @@ def configs(thorough, seed):
                 if thorough:
                     continue
                 hist = hists[i % (len(hists) - 1)]
+            if hist[1][0] == 'keep' and F != 1:
+                # (roll-back needs second-order data right away)
+                hist = hists[(i + 1) % 3]
             meth, pre = (('eigen', True), ('inverse', False), ('eigen', False),
                          ('inverse', False), ('eigen', True))[i % 5]
             k = dict(factor_update_steps=F,
